@@ -142,6 +142,22 @@ def make_problem(mdp: dict):
     rew_np = np.array(mdp["rew"], dtype=np.float64).reshape(ns, na, ne) / float(2 ** mdp["rexp"])
     prob_np = np.array(mdp["pk"], dtype=np.float64).reshape(ns, na, ne) / float(mdp["PD"])
     v0_np = np.array(mdp["v0"], dtype=np.float64) / float(2 ** mdp["v0exp"])
+    rare = mdp.get("rare")
+    if rare:
+        # A RARE CATASTROPHIC EVENT: one more event with probability 2^-pexp (far below single precision's smallest
+        # normal number) and a reward of magnitude 2^pexp, whose product c[s][a] is an ordinary number.  The tables
+        # handed to the model checker are the exactly equivalent ones in which c[s][a] is added to every other event's
+        # reward (rows sum to one): in float64, r_rare + gamma*V rounds to r_rare, times 2^-pexp is c exactly, and all
+        # partial sums are short dyadics - so the real sweep must equal the model's sweep bit for bit.
+        assert all(sum(row) == mdp["PD"] for sa in mdp["pk"] for row in sa)
+        cmat = np.array(rare["c"], dtype=np.float64).reshape(ns, na, 1) / float(2 ** mdp["rexp"])
+        pexp = int(rare["pexp"])
+        rew_np = np.concatenate([rew_np - cmat, cmat * 2.0 ** pexp], axis=2)
+        prob_np = np.concatenate([prob_np, np.full((ns, na, 1), 2.0 ** -pexp)], axis=2)
+        nxt_np = np.concatenate([nxt_np, np.full((ns, na, 1), int(rare["next"]), dtype=np.int32)], axis=2)
+        edim = evecs.shape[1]
+        evecs = np.concatenate([evecs, np.array([[ne, 7 - ne][:edim]], dtype=np.int32)])
+        ne = ne + 1
     nxt_np = np.concatenate([nxt_np, np.full((1, na, ne), ns - 1, dtype=np.int32)])
     rew_np = np.concatenate([rew_np, np.full((1, na, ne), 7.0)])
     prob_np = np.concatenate([prob_np, prob_np[:1]])
@@ -225,13 +241,17 @@ def make_problem(mdp: dict):
         def initial_value(self, state):
             return v0[self._row(state)]
 
-    if pol0 is not None:
+    if pol0 is not None and not r.get("init_policy_on_instance"):
         def initial_policy(self, state):
             return pol0[self.state_to_index(state)]
 
         TabularProblem.initial_policy = initial_policy
 
-    return TabularProblem()
+    instance = TabularProblem()
+    if pol0 is not None and r.get("init_policy_on_instance"):
+        # a problem that chooses its starting heuristic per instance (assigned in its constructor)
+        instance.initial_policy = lambda state: pol0[instance.state_to_index(state)]
+    return instance
 
 
 # ---------------------------------------------------------------------------
